@@ -73,6 +73,9 @@ type Sys struct {
 	events  []string // global, totally ordered record (same events as MV.Model.ActorSys.Event)
 	hazard  bool
 	current int // actor whose turn is running (-1: none)
+	// extra park sites (op `park`): besides "mb.spop" (one message per quantum) the runners also stop
+	// at these mailbox sites, so that a quantum ends at every cross-actor interaction (fine suite)
+	extra map[string]bool
 }
 
 type armedTimer struct {
@@ -374,7 +377,7 @@ func (s *Sys) spawn(ctx vivid.ActorContext, beh int) *actorRec {
 func New(behs map[int]*behDef) *Sys {
 	s := &Sys{behs: behs, byURL: map[string]*actorRec{}, recvOf: map[int]unsafe.Pointer{}, current: -1}
 	s.sc = sched.New()
-	s.sc.Filter = func(site string) bool { return site == "mb.spop" }
+	s.sc.Filter = func(site string) bool { return site == "mb.spop" || s.extra[site] }
 	vivid.VerifSetDefaultDispatcher(&disp{s})
 	s.abyss = &recAbyss{inner: vivid.VerifNewAbyss(), s: s}
 	s.sys = vivid.NewActorSystem(vivid.FunctionalActorSystemConfigurator(func(c *vivid.ActorSystemConfiguration) {
@@ -569,6 +572,28 @@ func (s *Sys) Log(aid int) string {
 		return "bad-op"
 	}
 	return "[" + strings.Join(s.actors[aid].log, " ") + "]"
+}
+
+// Stuck lists the alive actors that hold messages but have no runner, once nothing is runnable and
+// no timer is armed ("busy" otherwise): nobody will ever handle those messages.
+func (s *Sys) Stuck() string {
+	if len(s.armed) > 0 || len(s.Runnable()) > 0 {
+		return "busy"
+	}
+	var l []string
+	for _, r := range s.actors {
+		if r.mb == nil || !vivid.VerifIsRegistered(s.sys, r.ref) {
+			continue
+		}
+		info, ok := vivid.VerifInfo(r.mb)
+		if !ok || statusNames[info.Status] != "alive" {
+			continue
+		}
+		if _, sysN, usrN, _, _ := mailbox.VerifState(r.mb); sysN > 0 || usrN > 0 {
+			l = append(l, fmt.Sprint(r.aid))
+		}
+	}
+	return "[" + strings.Join(l, " ") + "]"
 }
 
 // Runnable lists the actors that currently have a parked runner.
